@@ -10,6 +10,7 @@ CONSTANTS
   Plans = {"whole"}
   Frames <- FramesTiny
   MaxFrames = 2
+  Spellings <- SpellCanon
   Pres = {"none"}
   PushPays <- PushNone
 INIT MCInit
